@@ -2808,6 +2808,11 @@ def _implied_by_flag(body, a, val, b, depth):
         return []
     cands, blocks = [], []
     for df in body.defs.get(root, ()):
+        if df[0] == "call":
+            # `let f = !a && pred(x);`: one of the values the flag can take is the answer of a call
+            cands.append((df[1], ("call", df[2])))
+            blocks.append(df[1])
+            continue
         if df[0] != "assign":
             return []
         rv = df[3]
@@ -2847,6 +2852,8 @@ def _implied_by_flag(body, a, val, b, depth):
         return []
     k, op = cands[0]
     out = [g_ for g_ in dom_guards(body, k, depth + 1) if body._dominates_plain(D, g_[2])]
-    if op is not None:
+    if op is not None and op[0] == "call":
+        out.append((describe_call(body, op[1]), "true" if val else "false", a))
+    elif op is not None:
         out.append((describe_operand(body, op), "true" if val else "false", a))
     return out
